@@ -103,12 +103,17 @@ class Opaque:
 
 
 class Interp:
-    def __init__(self, W=32, K=3, shared=None, handlers=None, name="p"):
+    def __init__(self, W=32, K=3, shared=None, handlers=None, name="p", intmode=False):
+        """intmode: integers/index are mathematical z3 Ints (adds the assumption 'no overflow, unsigned ops see
+        non-negative operands'); otherwise bit-vectors of the declared width (index = W bits)."""
         self.W = W
         self.K = K
+        self.intmode = intmode
         self.env: dict[SSAValue, object] = {}
         self.events: list = []
         self.handlers = dict(DEFAULT_HANDLERS)
+        if intmode:
+            self.handlers.update(ARITH_INT)
         if handlers:
             self.handlers.update(handlers)
         # opaque-result environment shared between two programs (keyed by call order)
@@ -131,6 +136,8 @@ class Interp:
 
     def sort_of(self, t):
         if isinstance(t, (IndexType, IntegerType)):
+            if self.intmode:
+                return z3.IntSort()
             return z3.BitVecSort(self.width(t))
         if isinstance(t, builtin.AnyFloat):
             return float_sort(t.name.replace(".", "_"))
@@ -364,6 +371,71 @@ ARITH = {
 }
 
 
+# ------------------------------------------------------------------ arith, mathematical-integer mode
+
+
+def _const_int(I, op):
+    v = op.value
+    if isinstance(v, builtin.IntegerAttr):
+        I.set(op.result, sym.zint(v.value.data))
+    else:
+        _const(I, op)
+
+
+def _nonneg_div(f):
+    def h(I, op):
+        a, b = I.vals(op)
+        eng().assume(z3.And(a >= 0, b > 0))  # unsigned op on mathematical ints: assumption, counted
+        I.state["int_div_assumptions"] = I.state.get("int_div_assumptions", 0) + 1
+        I.set(op.results[0], f(a, b))
+
+    return h
+
+
+def _cmpi_int(I, op):
+    a, b = I.vals(op)
+    p = op.predicate.value.data
+    f = {0: lambda: a == b, 1: lambda: a != b, 2: lambda: a < b, 3: lambda: a <= b, 4: lambda: a > b,
+         5: lambda: a >= b, 6: lambda: a < b, 7: lambda: a <= b, 8: lambda: a > b, 9: lambda: a >= b}[p]
+    I.set(op.result, z3.If(f(), z3.IntVal(1), z3.IntVal(0)))
+
+
+def _select_int(I, op):
+    c, a, b = I.vals(op)
+    I.set(op.result, z3.If(c != 0, a, b))
+
+
+def _ident(I, op):
+    (a,) = I.vals(op)
+    I.set(op.results[0], a)
+
+
+ARITH_INT = {
+    "arith.constant": _const_int,
+    "arith.addi": _bin(lambda a, b: a + b),
+    "arith.subi": _bin(lambda a, b: a - b),
+    "arith.muli": _bin(lambda a, b: a * b),
+    "arith.divui": _nonneg_div(lambda a, b: a / b),
+    "arith.divsi": _nonneg_div(lambda a, b: a / b),
+    "arith.floordivsi": _nonneg_div(lambda a, b: a / b),
+    "arith.ceildivui": _nonneg_div(lambda a, b: (a + b - 1) / b),
+    "arith.ceildivsi": _nonneg_div(lambda a, b: (a + b - 1) / b),
+    "arith.remui": _nonneg_div(lambda a, b: a % b),
+    "arith.remsi": _nonneg_div(lambda a, b: a % b),
+    "arith.minsi": _bin(lambda a, b: z3.If(a < b, a, b)),
+    "arith.maxsi": _bin(lambda a, b: z3.If(a > b, a, b)),
+    "arith.minui": _bin(lambda a, b: z3.If(a < b, a, b)),
+    "arith.maxui": _bin(lambda a, b: z3.If(a > b, a, b)),
+    "arith.cmpi": _cmpi_int,
+    "arith.select": _select_int,
+    "arith.index_cast": _ident,
+    "arith.index_castui": _ident,
+    "arith.extsi": _ident,
+    "arith.extui": _ident,
+    "arith.trunci": _ident,
+}
+
+
 # ------------------------------------------------------------------ scf / func
 
 
@@ -400,7 +472,7 @@ def _for(I: Interp, op: scf.ForOp):
 
 def _if(I: Interp, op: scf.IfOp):
     c = I.get(op.cond)
-    if eng().branch(bv2b(c)):
+    if eng().branch(c != 0 if I.intmode else bv2b(c)):
         r = I.run_block(op.true_region.blocks[0])
     else:
         r = I.run_block(op.false_region.blocks[0]) if op.false_region.blocks else None
